@@ -287,6 +287,53 @@ fn build(c: &Case) -> Built {
             }
         }
     }
+    // mixed axis kinds: the STD_AXIS under test is the k-th axis, the others are FIX_AXIS / COM_AXIS, and
+    // only dimension k of the record layout has the data type under test (the others a contrasting one),
+    // so that taking the limits of the wrong dimension is visible
+    let contrast = if dtname == "UBYTE" { "SLONG" } else { "UBYTE" };
+    let dims = ["X", "Y", "Z", "4", "5"];
+    for k in 0..5 {
+        let mut rl = format!("/begin RECORD_LAYOUT RLM{k} FNC_VALUES 1 {dtname} COLUMN_DIR DIRECT");
+        for (d, dn) in dims.iter().enumerate() {
+            rl.push_str(&format!(" AXIS_PTS_{dn} {} {} INDEX_INCR DIRECT", d + 2, if d == k { dtname } else { contrast }));
+        }
+        rl.push_str(" /end RECORD_LAYOUT\n");
+        push(&mut t, &rl);
+    }
+    if let Some((il, ih)) = inside {
+        let lref = push(&mut t, &format!("/begin AXIS_PTS AREF \"\" 0x0 NO_INPUT_QUANTITY RL 0 {convname} 4 {} {} /end AXIS_PTS\n", flt(il), flt(ih)));
+        subjects.insert(("AXIS_PTS".to_string(), "AREF".to_string(), lref));
+        for (pi, p) in PLACES.iter().enumerate() {
+            if *p == Place::Exact {
+                continue;
+            }
+            let Some((l, h)) = place(elo, ehi, *p) else { continue };
+            let out = !matches!(p, Place::Inside) && c.conv.evaluated();
+            for k in 0..5 {
+                let name = format!("CM{k}_{pi}");
+                let l0 = push(&mut t, &format!("/begin CHARACTERISTIC {name} \"\" CUBE_5 0x0 RLM{k} 0 {convname} {} {}\n", flt(il), flt(ih)));
+                subjects.insert(("CHARACTERISTIC".to_string(), name.clone(), l0));
+                for a in 0..5 {
+                    if a == k {
+                        let la = push(&mut t, &format!("/begin AXIS_DESCR STD_AXIS NO_INPUT_QUANTITY {convname} 4 {} {} /end AXIS_DESCR\n", flt(l), flt(h)));
+                        let key = ("AXIS_DESCR".to_string(), name.clone(), la);
+                        subjects.insert(key.clone());
+                        if out {
+                            expected.insert(key);
+                        }
+                    } else if a % 2 == 0 {
+                        // a FIX_AXIS with limits far outside everything: never limit-checked
+                        let la = push(&mut t, "/begin AXIS_DESCR FIX_AXIS NO_INPUT_QUANTITY NO_COMPU_METHOD 4 -1e30 1e30 FIX_AXIS_PAR 0 1 4 /end AXIS_DESCR\n");
+                        subjects.insert(("AXIS_DESCR".to_string(), name.clone(), la));
+                    } else {
+                        let la = push(&mut t, "/begin AXIS_DESCR COM_AXIS NO_INPUT_QUANTITY NO_COMPU_METHOD 4 -1e30 1e30 AXIS_PTS_REF AREF /end AXIS_DESCR\n");
+                        subjects.insert(("AXIS_DESCR".to_string(), name.clone(), la));
+                    }
+                }
+                push(&mut t, "/end CHARACTERISTIC\n");
+            }
+        }
+    }
     push(&mut t, "/end MODULE\n/end PROJECT\n");
     Built { text: t, expected, subjects, skipped, nonfinite: false }
 }
